@@ -857,12 +857,24 @@ def createPrice (s : State) (m : Msg) : State × MsgOut :=
 
 /-! ## ante handler and DeliverTx (app/ante/cosmos, baseapp.runTx) -/
 
+/-- one SignerInfo of the tx together with the signature slot it designates -/
+structure SigInfo where
+  pubkeyMatches : Bool     -- SetPubKeyDecorator: address of this public key = the signer at this index
+  sigValid : Bool          -- pubKey.VerifySignature(signBytes, signature) (boolean input; ed25519 is not modelled)
+deriving Repr, DecidableEq, Inhabited
+
 structure Tx where
   size : Nat
-  pubkeyMatches : Bool     -- SetPubKeyDecorator: pubkey address = signer
-  sigValid : Bool          -- result of pubKey.VerifySignature (boolean input; ed25519 is not modelled)
+  infos : List SigInfo     -- the tx's SignerInfos, in order (may be fewer or more than the signers)
   msgs : List Msg
 deriving Repr, DecidableEq, Inhabited
+
+/-- sdk.Tx.GetSigners: the creators of the messages, in order of first appearance, without repeats -/
+def dedupNat : List Nat → List Nat → List Nat
+  | seen, [] => seen
+  | seen, x :: xs => if seen.contains x then dedupNat seen xs else dedupNat (seen ++ [x]) xs
+
+def Tx.signers (tx : Tx) : List Nat := dedupNat [] (tx.msgs.map (·.creator))
 
 inductive TxOut
   | ok
@@ -878,13 +890,16 @@ def anteNonces (maxNonce : Nat) : Store → List Msg → Option Store
     | some st' => anteNonces maxNonce st' ms
     | none => none
 
-/-- the oracle branch of the ante chain, in decorator order: size limit (txsize_gas.go), pubkey/signer
-match (SetPubKeyDecorator), signature (SigVerificationDecorator: ErrUnauthorized when
-`!pubKey.VerifySignature(...)`), nonce (IncrementSequenceDecorator). -/
+/-- the oracle branch of the ante chain, in decorator order: size limit (txsize_gas.go); one
+SignerInfo per signer, each carrying that signer's public key (SetPubKeyDecorator); one valid
+signature per signer (SigVerificationDecorator: ErrUnauthorized on a count mismatch or when
+`!pubKey.VerifySignature(...)`); nonces (IncrementSequenceDecorator). The number of raw signature
+slots equals the number of signers on every tx that gets this far (tx.ValidateBasic). -/
 def anteHandle (s : State) (tx : Tx) : Except String Store :=
   if tx.size > 1000 then .error "size"
-  else if !tx.pubkeyMatches then .error "pubkey"
-  else if !tx.sigValid then .error "sig"
+  else if tx.infos.length ≠ tx.signers.length then .error "sig"
+  else if tx.infos.any (fun i => !i.pubkeyMatches) then .error "pubkey"
+  else if tx.infos.any (fun i => !i.sigValid) then .error "sig"
   else
     match anteNonces s.store.params.maxNonce s.store tx.msgs with
     | some st => .ok st
